@@ -1,7 +1,7 @@
 (* Observation commands of the platform-tag domain (C16), prefix `p.`.  Definitions only. *)
 From Coq Require Import List NArith Bool String.
 Import ListNotations.
-Require Import Elf ElfFile VParse VDec Show Tags TagsLit TagsModel PlatLit PlatModel RunTags.
+Require Import Elf ElfFile ElfDisk VParse VDec Show Tags TagsLit TagsModel PlatLit PlatModel PlatLoader RunTags.
 Open Scope N_scope.
 
 Definition hd_is_c (c : N) (s : list N) : bool := match s with x :: _ => x =? c | [] => false end.
@@ -57,6 +57,41 @@ Definition obs_many (archs confstr ctypes exe policy : list N) : list N :=
 Definition obs_musl (archs exe stderr : list N) : list N :=
   fields [commas (musllinux_tags (parse_exe_arg exe) stderr (parse_list archs));
           match musl_loader (parse_exe_arg exe) with Some ld => 83 :: ld | None => [45] end].
+(* ---- the probe through a regular file and the real subprocess.run (PlatLoader.v) ----
+   limits: "" = 2^63 (what io.BytesIO has), else the decimal value; loaders: "" or "*" = every NUL-free path exists, else ",p1,p2" *)
+Definition parse_lim1 (s : list N) : N := match s with [] => ssize_limit | _ :: _ => parse_N s end.
+Definition mk_lim (a b : list N) : file_limits := {| seek_max := parse_lim1 a; read_max := parse_lim1 b |}.
+Definition mk_le (loaders stderr : list N) : loader_env :=
+  {| le_all := match loaders with [] => true | c :: _ => c =? 42 end; le_existing := parse_list loaders; le_stderr := stderr |}.
+Definition show_exn (x : exn) : list N := match x with ExValueError => asc "!EXC:ValueError" | ExFileNotFound => asc "!EXC:FileNotFoundError" end.
+Definition show_outcome (o : outcome (list (list N))) : list N := match o with Done l => commas l | Raised x => show_exn x end.
+(* ELFFile(open(path, "rb")) *)
+Definition obs_elf_disk (f seekmax readmax : list N) : list N :=
+  match parse_header f with
+  | Invalid => asc "E"
+  | Ok e => fields [show_N (capacity e); show_N (encoding e); show_N (machine e); show_N (flags e);
+                    show_ires (interpreter_disk (mk_lim seekmax readmax) f e)]
+  end.
+Definition obs_musl_x (archs exe stderr loaders seekmax readmax : list N) : list N :=
+  let lim := mk_lim seekmax readmax in
+  match musllinux_tags_x lim (parse_exe_arg exe) (mk_le loaders stderr) (parse_list archs) with
+  | Done l => fields [commas l; match musl_loader_disk lim (parse_exe_arg exe) with Some ld => 83 :: ld | None => [45] end]
+  | Raised x => show_exn x
+  end.
+(* a battery of probe steps without cache_clear(): args = archs, then 6 per step: key confstr ctypes exe policy stderr *)
+Fixpoint parse_steps (fuel : nat) (args : list (list N)) : list pstep :=
+  match fuel, args with
+  | S fuel', key :: confstr :: ctypes :: exe :: policy :: stderr :: more =>
+      {| st_key := key; st_menv := mk_menv confstr ctypes exe policy; st_lim := mem_limits; st_le := mk_le [] stderr |} :: parse_steps fuel' more
+  | _, _ => []
+  end.
+Definition show_step (o : list (list N) * outcome (list (list N))) : list N := fields [commas (fst o); show_outcome (snd o)].
+Definition obs_probes (args : list (list N)) : list N :=
+  match args with
+  | archs :: rest => join [59] (map show_step (run_steps (parse_list archs) pstate0 (parse_steps (List.length rest) rest)))
+  | [] => []
+  end.
+
 Definition pair_nat (a b : list N) : nat * nat := (parse_nat a, parse_nat b).
 Definition show_olist (o : option (list (list N))) : list N := match o with Some l => commas l | None => asc "!EXC:ValueError" end.
 
@@ -64,15 +99,22 @@ Definition run_plat (cmd : list N) (args : list (list N)) : option (list N) :=
   let a := fun n => nth_str n args in
   if seqb cmd (asc "p.elf") then Some (obs_elf (a 0%nat))
   else if seqb cmd (asc "p.many") then Some (obs_many (a 0%nat) (a 1%nat) (a 2%nat) (a 3%nat) (a 4%nat))
-  else if seqb cmd (asc "p.musl") then Some (obs_musl (a 0%nat) (a 1%nat) (a 2%nat))
+  else if seqb cmd (asc "p.musl") then Some (obs_musl_x (a 0%nat) (a 1%nat) (a 2%nat) (a 3%nat) (a 4%nat) (a 5%nat))
+  else if seqb cmd (asc "p.elff") then Some (obs_elf_disk (a 0%nat) (a 1%nat) (a 2%nat))
+  else if seqb cmd (asc "p.probes") then Some (obs_probes args)
   else if seqb cmd (asc "p.mac") then Some (commas (mac_platforms (pair_nat (a 0%nat) (a 1%nat)) (a 2%nat)))
   else if seqb cmd (asc "p.macdef") then Some (show_olist (mac_default (a 0%nat) (a 1%nat) (a 2%nat)))
   else if seqb cmd (asc "p.ios") then Some (commas (ios_platforms (pair_nat (a 0%nat) (a 1%nat)) (a 2%nat)))
   else if seqb cmd (asc "p.linux") then
-    Some (commas (linux_platforms (parse_bool (a 0%nat)) (a 1%nat) (mk_menv (a 2%nat) (a 3%nat) (a 4%nat) (a 5%nat)) (a 6%nat)))
+    Some (show_outcome (linux_platforms_x (parse_bool (a 0%nat)) (a 1%nat) (mk_menv (a 2%nat) (a 3%nat) (a 4%nat) (a 5%nat))
+                                          (mk_lim (a 8%nat) (a 9%nat)) (mk_le (a 7%nat) (a 6%nat))))
   else if seqb cmd (asc "p.plat") then
-    Some (show_olist (platform_tags {| pe_system := a 0%nat; pe_get_platform := a 1%nat;
-                                       pe_menv := mk_menv (a 2%nat) (a 3%nat) (a 4%nat) (a 5%nat); pe_musl_stderr := a 6%nat;
-                                       pe_mac_ver := a 7%nat; pe_mac_cpu := a 8%nat; pe_mac_sub := a 9%nat;
-                                       pe_ios_release := a 10%nat; pe_multiarch := a 11%nat |}))
+    Some (match platform_tags_x {| pe_system := a 0%nat; pe_get_platform := a 1%nat;
+                                   pe_menv := mk_menv (a 2%nat) (a 3%nat) (a 4%nat) (a 5%nat); pe_musl_stderr := a 6%nat;
+                                   pe_mac_ver := a 7%nat; pe_mac_cpu := a 8%nat; pe_mac_sub := a 9%nat;
+                                   pe_ios_release := a 10%nat; pe_multiarch := a 11%nat |}
+                                (mk_lim (a 13%nat) (a 14%nat)) (mk_le (a 12%nat) (a 6%nat)) with
+          | Some o => show_outcome o
+          | None => asc "!EXC:ValueError"
+          end)
   else None.
